@@ -17,7 +17,7 @@ EXPLANATION = (
     "and not decided.")
 # every anchor of these rules lives in the h3 crate: thorough tier repeats them on the feature-less build
 EXTRA_CONFIGS = ["h3-plain"]
-RULES = "C02-a exact consumption; C02-b truncation malformed; C02-c unknown skipped; C02-d end of stream; C02-e error tables; C02-f who writes segmentation state; C02-g completeness before decode"
+RULES = "C02-a exact consumption; C02-b truncation malformed; C02-c unknown skipped; C02-d end of stream; C02-e error tables; C02-f who writes segmentation state; C02-g completeness before decode; shared through a proxy: C16-a under C02-g, C03-trl/trl2 under C02-d"
 
 FR = "h3::proto::frame::"
 FS = "h3::frame::FrameStream::"
@@ -304,3 +304,10 @@ def run(ctx):
                           "split() gives the receive half %s = %s instead of self.%s: splitting in the middle of a DATA frame makes the "
                           "rest of the payload parse as frame headers" % (fld, fl.fmt(o), fld), fl.fmt(o), b.loc(s))
     ctx.assume("BufList/Cursor arithmetic (buf.rs) delivers the buffered bytes in order: value-level, not decided")
+    # clauses of other properties that frame boundaries depend on (run through a filtering proxy, reported under this property):
+    # the varint decoder every frame header goes through (C16-a) and the look-ahead for a frame behind the trailers (C03-trl2),
+    # which is where a truncated last frame is either seen or silently accepted
+    if not getattr(ctx, "nested", False):
+        from rules import C03 as _c03, C16 as _c16
+        _c16.run(shared.Proxy(ctx, ("C16-a",), "C02-g"))
+        _c03.run(shared.Proxy(ctx, ("C03-trl",), "C02-d"))
